@@ -303,13 +303,15 @@ class Gen:
     def __init__(self, bodies):
         self.B = bodies
         self.done = {}      # name -> prototype
-        self.defs = []
+        self.defs = []      # (name, text)
+        self.deps = {}      # name -> direct callees
 
-    def emit(self, name, proto, comment, typedefs, body, where):
+    def emit(self, name, proto, comment, typedefs, body, where, callees=()):
+        self.deps[name] = list(callees)
         check_residue(body, where)
         body = re.sub(r'\n\s*\n+', '\n', "\n" + body).strip("\n")
         td = " ".join("typedef T_%s %s;" % (t.tag, p) for p, t in typedefs)
-        self.defs.append("/* %s */\n%s\n{\n    %s\n%s\n}\n" % (comment, proto, td, body.rstrip()))
+        self.defs.append((name, "/* %s */\n%s\n{\n    %s\n%s\n}\n" % (comment, proto, td, body.rstrip())))
         self.done[name] = proto
 
     def less(self, a, b):
@@ -357,7 +359,7 @@ class Gen:
                          "generator; both argument types re-checked by _Static_assert(__builtin_types_compatible_p) in C")
         proto = "opt_%s %s(const T_%s a, const T_%s b)" % (s, name, a, b)
         self.emit(name, proto, "IncreaseSumInternal<%s,%s,%s>  [%s]" % (s.c, a.c, b.c, ov),
-                  [("S", s), ("A", a), ("B", b)], body, where)
+                  [("S", s), ("A", a), ("B", b)], body, where, [] if all_unsigned(a, b) else [callee])
         return name
 
     def is2(self, s, t):
@@ -374,7 +376,7 @@ class Gen:
                          "call IncreaseSumInternal<S>(+s, +t) bound to the overload/instantiation for the promoted types "
                          "decltype(+s), decltype(+t) (generator: promotion table + AllUnsigned; types re-checked by _Static_assert)")
         proto = "opt_%s %s(const T_%s s, const T_%s t)" % (s, name, s, t)
-        self.emit(name, proto, "IncreaseSum<%s,%s>(s, t)" % (s.c, t.c), [("S", s), ("T", t)], body, where)
+        self.emit(name, proto, "IncreaseSum<%s,%s>(s, t)" % (s.c, t.c), [("S", s), ("T", t)], body, where, [callee])
         return name
 
     def isn(self, s, ts):
@@ -403,7 +405,7 @@ class Gen:
         proto = "opt_%s %s(const T_%s sum, const T_%s t, %s)" % (
             s, name, s, t, ", ".join("const T_%s %s" % (x, n) for x, n in zip(rest, an)))
         self.emit(name, proto, "IncreaseSum<%s,%s>(sum, t, args...)" % (s.c, ",".join(x.c for x in ts)),
-                  [("S", s), ("T", t)], body, where)
+                  [("S", s), ("T", t)], body, where, [head, tail])
         return name
 
     def ns(self, s, ts):
@@ -420,7 +422,7 @@ class Gen:
                          "'IncreaseSum<SummationType>(0, args...)' -> pack unrolled, literal 0 converts to S at the call")
         proto = "opt_%s %s(%s)" % (s, name, ", ".join("const T_%s %s" % (x, n) for x, n in zip(ts, an)))
         self.emit(name, proto, "NaturalSum<%s>(%s)" % (s.c, ", ".join(x.c for x in ts)),
-                  [("SummationType", s)], body, where)
+                  [("SummationType", s)], body, where, [callee])
         return name
 
     def setmax(self, s, ts):
@@ -439,7 +441,7 @@ class Gen:
         body = sub_exact(body, r'\bvar\b', "(*var)", 2, where, "reference parameter 'S &var' -> pointer 'S *var', uses -> (*var)")
         proto = "T_%s %s(T_%s *var, %s)" % (s, name, s, ", ".join("const T_%s %s" % (x, n) for x, n in zip(ts, an)))
         self.emit(name, proto, "SetToNaturalSumOrMax<%s>(var, %s)" % (s.c, ", ".join(x.c for x in ts)),
-                  [("S", s)], body, where)
+                  [("S", s)], body, where, [callee])
         return name
 
 
@@ -507,12 +509,19 @@ def quick_pairs(s):
     return out
 
 
+SECTIONS = (["LESS", "IS2", "NS1", "SET1"] + ["NS2_" + t.tag for t in TYPES] + ["SET2_" + t.tag for t in TYPES] +
+            ["SUM3_" + t.tag for t in TYPES])
+SECNO = {n: i + 1 for i, n in enumerate(SECTIONS)}     # wrap section number = -DWSEC=<n> (0 = everything)
+
+
 def main():
     g = Gen(parse())
     # The driver does not pass the tier to gen.py; its build directory is <prop>-<tier>/<unit>.  In the quick tier (and
-    # in selftests) only the quick subset is instantiated -- the full set costs about a minute of goto-cc time.
+    # in selftests) only the quick subset is instantiated.  One section per target of unit.json; in the thorough tier
+    # each target compiles only its own section of sm_inst.c (-DWSEC=<n>), in the quick tier everything (-DWSEC=0).
     full = re.search(r'-thorough(/|$)', BDIR) is not None or os.environ.get("SM_FULL") == "1"
     checks = []   # (section, macro, id, types, neg-possible, overflow-possible)
+    roots = {}    # section -> root function names
     n = [0]
     count = {}
 
@@ -521,7 +530,7 @@ def main():
         n[0] += 1
         if tier > 1 and not full:
             return
-        inst()
+        roots.setdefault(section, []).append(inst())
         neg = any(t.signed for t in args)
         ovf = sum(t.max for t in args) > s.max
         tys = args if macro == "LESS" else ([s] + args[1:] if first_is_s else [s] + args)
@@ -540,7 +549,11 @@ def main():
     for s in TYPES:
         for a in TYPES:
             add("NS1", 1, "NS1", s, [a], lambda: g.ns(s, [a]))
-    # NaturalSum<S>(a,b): quick = boundary-chosen 40 triples; thorough = all 512
+    # SetToNaturalSumOrMax(var, a): all 64
+    for s in TYPES:
+        for a in TYPES:
+            add("SET1", 1, "SET1", s, [a], lambda: g.setmax(s, [a]))
+    # NaturalSum<S>(a,b): quick = boundary-chosen (S,A,B) triples (37 distinct); thorough = all 512
     for s in TYPES:
         qp = quick_pairs(s)
         for a in TYPES:
@@ -552,30 +565,45 @@ def main():
         for a in TYPES:
             for b in TYPES:
                 add("SET2_" + s.tag, 1 if (a, b) in qp[:3] else 2, "SET2", s, [a, b], lambda: g.setmax(s, [a, b]))
-    # SetToNaturalSumOrMax(var, a): all 64
-    for s in TYPES:
-        for a in TYPES:
-            add("SET1", 1, "SET1", s, [a], lambda: g.setmax(s, [a]))
     # 3-argument sums.  IncreaseSum(s,t,u): quick = 16 (two boundary pairs per S); thorough = all 512
     for s in TYPES:
         qp = quick_pairs(s)
         for t in TYPES:
             for u in TYPES:
-                add("IS3_" + s.tag, 1 if (t, u) in qp[1:3] else 2, "IS3", s, [s, t, u], lambda: g.isn(s, [t, u]), True)
-    # NaturalSum<S>(a,b,c): quick = 8 (one per S); thorough = every S x every (a,b) x c in {S, flip(S), i64, u8}
+                add("SUM3_" + s.tag, 1 if (t, u) in qp[1:3] else 2, "IS3", s, [s, t, u], lambda: g.isn(s, [t, u]), True)
+    # NaturalSum<S>(a,b,c): quick = 8 (one per S); thorough = S x boundary pairs (a,b) x c in {S, flip(S), i64, u8}
     for s in TYPES:
         cs = []
         for c in (s, flip(s), BY["i64"], BY["u8"]):
             if c not in cs:
                 cs.append(c)
         qp = quick_pairs(s)
-        for a in TYPES:
-            for b in TYPES:
-                for c in cs:
-                    add("NS3_" + s.tag, 1 if ((a, b) == qp[1] and c is cs[0]) else 2, "NS3", s, [a, b, c],
-                        lambda: g.ns(s, [a, b, c]))
+        for (a, b) in qp:
+            for c in cs:
+                add("SUM3_" + s.tag, 1 if ((a, b) == qp[1] and c is cs[0]) else 2, "NS3", s, [a, b, c],
+                    lambda: g.ns(s, [a, b, c]))
     drop("tuple selection (%s tier): %s; %d instantiated C functions" %
          ("thorough" if full else "quick", ", ".join("%s x%d" % kv for kv in sorted(count.items())), len(g.done)))
+
+    # which sections need which function (transitive callees of the section's roots)
+    need = {}
+    for sec, rs in roots.items():
+        stack = list(rs)
+        seen = set()
+        while stack:
+            f = stack.pop()
+            if f in seen:
+                continue
+            seen.add(f)
+            stack.extend(g.deps[f])
+        for f in seen:
+            need.setdefault(f, set()).add(SECNO[sec])
+
+    def guard(name):
+        ns_ = sorted(need.get(name, ()))
+        if len(ns_) >= len(SECTIONS) - 1:
+            return "1"
+        return " || ".join(["WSEC == 0"] + ["WSEC == %d" % k for k in ns_])
 
     # ---- sm_inst.h
     h = ["/* GENERATED by units/squidmath/gen.py from the real src/SquidMath.h -- do not edit */",
@@ -608,33 +636,48 @@ def main():
     h.append("#define CV_TYPED(f, TA, a, TB, b) ((void)sizeof(char[__builtin_types_compatible_p(__typeof__(a), TA) && "
              "__builtin_types_compatible_p(__typeof__(b), TB) ? 1 : -1]), f((a), (b)))")
     h.append("")
+    h.append("#ifndef WSEC\n#define WSEC 0\n#endif")
     for name, proto in g.done.items():
-        h.append(proto + ";")
+        h.append("#if %s\n%s;\n#endif" % (guard(name), proto))
     h.append("#endif")
     with open(os.path.join(BDIR, "sm_inst.h"), "w") as f:
         f.write("\n".join(h) + "\n")
     # ---- sm_inst.c
     with open(os.path.join(BDIR, "sm_inst.c"), "w") as f:
         f.write("/* GENERATED by units/squidmath/gen.py: statements of the real src/SquidMath.h, instantiated per type tuple */\n"
-                "#include \"sm_inst.h\"\n\n" + "\n".join(g.defs))
+                "#include \"sm_inst.h\"\n\n" +
+                "\n".join("#if %s\n%s#endif\n" % (guard(nm), txt) for nm, txt in g.defs))
     # ---- sm_checks.inc
     out = ["/* GENERATED: one line per checked instantiation.  CHK_<F>(id, types...) = contract check,",
            "   RCH_A/B/C(id, label) = reachability asserts: A = value returned (Less: true), B = rejected because an argument",
            "   is negative (Less: false), C = rejected because the sum does not fit -- B, C only where the case exists for the types.",
            "   tier: %s */" % ("thorough (everything)" if full else "quick subset")]
+    out.append("#ifdef SM_ALL_SECTIONS   /* native replay: every section */")
+    for sn in SECTIONS:
+        out.append("#define SEC_" + sn)
+    out.append("#endif")
     sec = None
+    k = 0
     for (section, macro, i, tys, neg, ovf) in checks:
         if section != sec:
             if sec is not None:
                 out.append("#endif")
             out.append("#ifdef SEC_" + section)
             sec = section
+            k = 0
+        k += 1
         label = '"%s<%s>"' % (macro, ",".join(t.tag for t in tys))
-        line = "CHK_%s(%d, %s) RCH_A(%d, %s)" % (macro, i, ", ".join(t.tag for t in tys), i, label)
-        if macro == "LESS" or neg:
-            line += " RCH_B(%d, %s)" % (i, label)
-        if macro != "LESS" and ovf:
-            line += " RCH_C(%d, %s)" % (i, label)
+        line = "CHK_%s(%d, %s)" % (macro, i, ", ".join(t.tag for t in tys))
+        # every failing assertion costs the solver one more call on the whole batch: the must-fail twin negates the
+        # postconditions of the first tuple of each section only, reachability is asserted for the first two
+        if k == 1:
+            line = "TWIN_ON " + line + " TWIN_OFF"
+        if k <= 2:
+            line += " RCH_A(%d, %s)" % (i, label)
+            if macro == "LESS" or neg:
+                line += " RCH_B(%d, %s)" % (i, label)
+            if macro != "LESS" and ovf:
+                line += " RCH_C(%d, %s)" % (i, label)
         out.append(line)
     out.append("#endif")
     with open(os.path.join(BDIR, "sm_checks.inc"), "w") as f:
@@ -645,5 +688,32 @@ def main():
     print("generated %d instantiated functions, %d checks" % (len(g.done), len(checks)))
 
 
+def print_targets():
+    """JSON fragment for unit.json (run by hand when the section list changes): python3 gen.py --targets"""
+    import json
+    out = []
+    tw = [{"define": "TWIN", "expect": "TWIN", "tiers": ["quick", "thorough"]}]
+    for sec in SECTIONS:
+        fam = sec.split("_")[0]
+        per_s = fam in ("NS2", "SET2", "SUM3")
+        t = {"id": sec.lower(), "harness": "h_sm",
+             "defines": {"SEC_" + sec: None, "WSEC": {"quick": 0, "thorough": SECNO[sec]}},
+             "cbmc_flags": ["--drop-unused-functions"], "twins": tw,
+             "timeout": 1500 if per_s else 600, "replay": sec}
+        if per_s:
+            t["tiers"] = ["thorough"]
+        out.append(t)
+    # quick tier: the per-S sections of a family are small there; one target per family
+    for fam in ("NS2", "SET2", "SUM3"):
+        d = {"SEC_%s_%s" % (fam, t.tag): None for t in TYPES}
+        d["WSEC"] = 0
+        out.append({"id": fam.lower() + "_quick", "harness": "h_sm", "defines": d, "tiers": ["quick"],
+                    "cbmc_flags": ["--drop-unused-functions"], "twins": tw, "timeout": 600, "replay": fam})
+    print(json.dumps(out, indent=1))
+
+
 if __name__ == "__main__":
-    main()
+    if len(sys.argv) > 1 and sys.argv[1] == "--targets":
+        print_targets()
+    else:
+        main()
